@@ -307,6 +307,9 @@ type Subscription struct {
 	Mu       sync.Mutex
 	running  bool
 	shutdown chan struct{}
+
+	// done is closed when run returns: from then on nobody reads NotifyChannel any more.
+	done chan struct{}
 }
 
 func NewSubscription() *Subscription {
@@ -315,6 +318,7 @@ func NewSubscription() *Subscription {
 		NotifyChannel: make(chan *ua.MonitoredItemNotification, 100),
 		ModifyChannel: make(chan *ua.ModifySubscriptionRequest, 2),
 		shutdown:      make(chan struct{}),
+		done:          make(chan struct{}),
 	}
 }
 
@@ -322,6 +326,16 @@ func (s *Subscription) Update(req *ua.ModifySubscriptionRequest) {
 	s.RevisedPublishingInterval = req.RequestedPublishingInterval
 	s.RevisedLifetimeCount = req.RequestedLifetimeCount
 	s.RevisedMaxKeepAliveCount = req.RequestedMaxKeepAliveCount
+}
+
+// notify hands a notification to the subscription's run loop. It gives up when the loop has
+// ended: the subscription is being deleted (the deletion needs the lock the caller holds) and
+// nobody would ever read the channel.
+func (s *Subscription) notify(val *ua.MonitoredItemNotification) {
+	select {
+	case s.NotifyChannel <- val:
+	case <-s.done:
+	}
 }
 
 func (s *Subscription) Start() {
@@ -372,6 +386,9 @@ func (s *Subscription) run() {
 		}
 		s.srv.DeleteSubscription(s.ID)
 	}()
+	// runs before the clean-up above: the clean-up waits for locks that a sender blocked on
+	// NotifyChannel may hold.
+	defer close(s.done)
 
 	keepalive_counter := 0
 	lifetime_counter := 0
